@@ -1,5 +1,6 @@
 import CobaVerif.Driver.JsonUtil
 import CobaVerif.Model.C04
+import CobaVerif.Driver.C09
 open Lean Coba.J
 
 namespace Coba.C04.Driver
@@ -58,10 +59,56 @@ def parseVariant (s : String) : Variant := if s == "asis" then .asis else .fixed
 
 /-- nodes are built source-first; `u` is the denotation of what is already built (needed for the
 initial state of caches that were filled while the pipeline was constructed) -/
-def parseNode (fin : PureSt) (u : List Nat) (j : Json) : Except String Node := do
+def parseAttr (j : Json) : Except String (Nat × Attr) := do
+  let id ← nat (← field j "id")
+  pure (id, { logged := (← bool (fieldD j "logged" (Json.bool false))),
+              hasCtx := (← bool (fieldD j "hasCtx" (Json.bool true))),
+              ctx := (← C09.Driver.parseCtx (fieldD j "ctx" Json.null)),
+              nact := (← nat (fieldD j "nact" (ofNat 0))) })
+
+def attrOf (tbl : List (Nat × Attr)) (i : Nat) : Attr :=
+  match tbl.find? (fun p => p.1 == i) with
+  | some (_, a) => a
+  | none => { logged := false, hasCtx := false, ctx := .none, nact := 0 }
+
+/-- a built-in filter as the real function of `Model/C09` (nothing about its output comes from the code) -/
+def parseFilt (att : Nat → Attr) (j : Json) : Except String PureSt := do
+  let op ← str (← field j "op")
+  let par ← natList (fieldD j "par" (Json.arr #[]))
+  match op with
+  | "take" => pure ((Filt.take (← opt nat (fieldD j "count" Json.null)) (← bool (← field j "strict"))).toPure att par)
+  | "slice" =>
+    pure ((Filt.slice (← opt nat (fieldD j "start" Json.null)) (← opt nat (fieldD j "stop" Json.null)) (← nat (← field j "step"))).toPure att par)
+  | "shuffle" =>
+    pure ((Filt.shuffle (← C09.Driver.parseSeed (← field j "seed")) (← C09.Driver.parseSeed (← field j "lseed"))).toPure att par)
+  | "riffle" => pure ((Filt.riffle (← nat (← field j "spacing")) (← C09.Driver.parseSeed (← field j "seed"))).toPure att par)
+  | "sort" => pure ((Filt.sort (← (← arr (← field j "keys")).mapM C09.Driver.parseVal)).toPure att par)
+  | "where" =>
+    pure ((Filt.wher (← C09.Driver.parseRange (← field j "nint")) (← C09.Driver.parseRange (← field j "nact"))
+      (← C09.Driver.parseRange (← field j "nfet"))).toPure att par)
+  | "reservoir" =>
+    let c ← opt nat (fieldD j "count" Json.null)
+    let strict ← bool (← field j "strict")
+    let sd ← C09.Driver.parseSeed (← field j "seed")
+    let f : List Nat → List Nat := fun xs =>
+      match C09.reservoirF C09.Driver.floatOps c strict sd.norm (xs.length + 12) xs with
+      | .ok r => r
+      | .error _ => [poison]
+    pure { f := f, dem := fun _ d => if d.isNone then .none else .all, par := par }
+  | "map" =>
+    let elem ← (← arr (← field j "elem")).mapM (fun e => do
+      match (← arr e) with
+      | [a, b] => pure ((← nat a), (← nat b))
+      | _ => throw "elem entry must be [in,out]")
+    let g : Nat → Nat := fun x => match elem.find? (fun p => p.1 == x) with | some (_, y) => y | none => poison
+    pure ((Filt.mapE g).toPure att par)
+  | _ => throw s!"unknown filter {op}"
+
+def parseNode (att : Nat → Attr) (fin : PureSt) (u : List Nat) (j : Json) : Except String Node := do
   let k ← str (← field j "k")
   match k with
   | "pure" => pure (.pure (← parsePure j))
+  | "filt" => pure (.pure (← parseFilt att j))
   | "shuffle" =>
     let perms ← (← arr (← field j "perms")).mapM natList
     let pars ← (← arr (← field j "par")).mapM natList
@@ -83,11 +130,11 @@ def parseNode (fin : PureSt) (u : List Nat) (j : Json) : Except String Node := d
     pure (.finalize fin (if rd then some (u == []) else none))
   | _ => throw s!"unknown node kind {k}"
 
-def parseNodes (fin : PureSt) : List Nat → List Json → Except String (List Node)
+def parseNodes (att : Nat → Attr) (fin : PureSt) : List Nat → List Json → Except String (List Node)
   | _, [] => pure []
   | u, j :: js => do
-    let n ← parseNode fin u j
-    let rest ← parseNodes fin (nodeDen n u) js
+    let n ← parseNode att fin u j
+    let rest ← parseNodes att fin (nodeDen n u) js
     pure (n :: rest)
 
 def parseOp (j : Json) : Except String Op := do
@@ -111,6 +158,8 @@ def outToJson : Out → Json
   | .err => Json.str "err"
   | .skip => Json.str "skip"
 
+def ofNatListJson (l : List Nat) : Json := ofList ofNat l
+
 def nodeFixedB : Node → Bool
   | .shuffle .asis _ _ _ _ => false
   | _ => true
@@ -124,26 +173,63 @@ def hypB (w : World) (o : Obj) : Bool :=
                  | some (.finalize _ _) => !(o.nodes.dropLast.any isFinalize)
                  | _ => false))
 
-/-- request: {"variant","fin":{table},"src":{once,items,parPre,parPost},"nodes":[…],"ownFin","hist":[…]}
-answer: model outputs per operation, the denotation and denoted params, and whether the hypotheses
-of `reread` hold for the request -/
-def handle (req : Json) : Except String Json := do
-  let variant := parseVariant (← str (← field req "variant"))
-  let fin ← parsePure (← field req "fin")
-  let sj ← field req "src"
+def parseObj (att : Nat → Attr) (fin : PureSt) (j : Json) : Except String Obj := do
+  let sj ← field j "src"
   let items ← natList (← field sj "items")
   let src : Src := {
     once := (← bool (← field sj "once")), items := items, rem := items,
     started := (← bool (fieldD sj "started" (Json.bool false))),
     parPre := (← natList (← field sj "parPre")), parPost := (← natList (← field sj "parPost")) }
-  let nodes ← parseNodes fin items (← arr (← field req "nodes"))
-  let o : Obj := { src := src, nodes := nodes, ownFin := (← bool (← field req "ownFin")) }
-  let w : World := { fin := fin, variant := variant, objs := [some o] }
+  let nodes ← parseNodes att fin items (← arr (← field j "nodes"))
+  pure { src := src, nodes := nodes, ownFin := (← bool (← field j "ownFin")) }
+
+/-- `GroundedFeedback`: request {"memo":{"cap":n|null,"insts":[{"seed":Seed,"ngood":n,"nbad":n,"argmax":a}],"reads":[[[inst,arg],…],…]}}.
+The k-th draw of an instance is `CobaRandom(seed).choice(words)` at its k-th call: index `floor(len*u_k)` into the good
+words when the argument is the argmax, else into the bad words (bad words are numbered after the good ones). -/
+def handleMemo (j : Json) : Except String Json := do
+  let cap ← opt nat (fieldD j "cap" Json.null)
+  let insts ← (← arr (← field j "insts")).mapM (fun e => do
+    pure ((← C09.Driver.parseSeed (← field e "seed")).norm, (← nat (← field e "ngood")), (← nat (← field e "nbad")), (← nat (← field e "argmax")), (← bool (← field e "normal"))))
+  let reads ← (← arr (← field j "reads")).mapM (fun r => do
+    (← arr r).mapM (fun q => do
+      match (← arr q) with
+      | [a, b] => pure ((← nat a), (← nat b))
+      | _ => throw "query must be [inst,arg]"))
+  let draw : Nat → Nat → Nat → Nat := fun i k a =>
+    match insts[i]? with
+    | none => poison
+    | some (s0, ngood, nbad, argmax, normal) =>
+      let s := (List.range k).foldl (fun st _ => C05.next st) s0
+      -- normal users answer the argmax with a good word, the others with a bad one
+      let useGood := (a == argmax) == normal
+      if useGood then C05.scaled s ngood else ngood + C05.scaled s nbad
+  pure (obj [("values", ofList (ofList ofNat) (Memo.reads cap draw ⟨[], []⟩ reads))])
+
+/-- request: {"variant","fin":{table},"attrs":[…],"objs":[{src,nodes,ownFin}…] (or a single "src"/"nodes"/"ownFin"),
+"caller":[[tokens]…],"hist":[…]}; answer: model outputs per operation, per object the denotation and denoted
+params, whether the hypotheses of `reread` hold, and the caller-owned cells after the history -/
+def handle (req : Json) : Except String Json := do
+  match req.getObjVal? "memo" with
+  | .ok m => handleMemo m
+  | .error _ =>
+  let variant := parseVariant (← str (← field req "variant"))
+  let fin ← parsePure (← field req "fin")
+  let attrs ← (← arr (fieldD req "attrs" (Json.arr #[]))).mapM parseAttr
+  let att := attrOf attrs
+  let objs ← match req.getObjVal? "objs" with
+    | .ok os => (← arr os).mapM (parseObj att fin)
+    | .error _ => do pure [← parseObj att fin req]
+  let w : World := { fin := fin, variant := variant, objs := objs.map some }
+  let caller ← (← arr (fieldD req "caller" (Json.arr #[]))).mapM natList
+  let h : HWorld := { w := w, caller := caller, argEdit := fun _ => none }
   let ops ← (← arr (← field req "hist")).mapM parseOp
-  let outs := run w ops
+  let outs := hrun h ops
+  let o0 := objs.headD { src := { once := false, items := [], rem := [], started := false, parPre := [], parPost := [] }, nodes := [], ownFin := false }
   pure (obj [("model", ofList outToJson outs),
-             ("den", ofList ofNat o.den),
-             ("denParams", ofList ofNat o.denParams),
-             ("hyp", Json.bool (hypB w o))])
+             ("den", ofNatListJson o0.den),
+             ("denParams", ofNatListJson o0.denParams),
+             ("dens", ofList (fun (o : Obj) => ofNatListJson o.den) objs),
+             ("hyp", Json.bool (objs.all (hypB w))),
+             ("caller", ofList ofNatListJson (hrunW h ops).caller)])
 
 end Coba.C04.Driver
